@@ -52,7 +52,15 @@ PROPS = {
                   'harnesses': {
                       'to_uint32_contract': {'kind': 'complete', 'fn': 'value::to_uint32'},
                       'to_int32_contract': {'kind': 'complete', 'fn': 'value::to_int32'},
-                  }, 'replay_test': 'verif_replay_value_toint32'}],
+                  }, 'replay_test': 'verif_replay_value_toint32'},
+                 {'unit': 'number_round', 'mount': 'src/interpreter/builtins/number.rs', 'mod': 'verif_kani_number_round',
+                  'harnesses': {
+                      'round_digits_len1': {'kind': 'bounded', 'bound': 'digit vector of exactly 1 digit (all symbolic), symbolic exponent, every digit count k in -1..=N+1', 'fn': 'number::round_decimal_digits'},
+                      'round_digits_len2': {'kind': 'bounded', 'bound': 'digit vector of exactly 2 digits (all symbolic), symbolic exponent, every digit count k in -1..=N+1', 'fn': 'number::round_decimal_digits'},
+                      'round_digits_len3': {'kind': 'bounded', 'bound': 'digit vector of exactly 3 digits (all symbolic), symbolic exponent, every digit count k in -1..=N+1', 'fn': 'number::round_decimal_digits'},
+                      'round_digits_len5': {'kind': 'bounded', 'bound': 'digit vector of exactly 5 digits (all symbolic), symbolic exponent, every digit count k in -1..=N+1', 'fn': 'number::round_decimal_digits'},
+                      'round_digits_len8': {'kind': 'bounded', 'bound': 'digit vector of exactly 8 digits (all symbolic), symbolic exponent, every digit count k in -1..=N+1', 'fn': 'number::round_decimal_digits', 'tier': 'thorough'},
+                  }, 'replay_test': 'verif_replay_number_round'}],
         'side': {'unit': 'side_c15', 'mount': 'src/lib.rs', 'mod': 'verif_side_c15', 'test': 'verif_side_c15', 'iters_quick': 40, 'iters_thorough': 2000},
         'trusted_base': COMMON_TB + ['CBMC floating-point semantics for f64 comparison, `as i64` and to_bits (bit-precise; f64 % is not used by the contracted code)'],
         'assumptions': [
